@@ -200,6 +200,20 @@ func (f *Frame) specEval1(e SExpr, env *SpecEnv) Val {
 		idx := f.specEval(x.I, env)
 		return f.specIndex(base, idx, env)
 	case *SSlice:
+		// a[:] of an array (the whole array as a slice), same term as the code's a[:]
+		if x.Lo == nil && x.Hi == nil {
+			base := f.specEval(x.X, env)
+			if base.Ty != nil {
+				if arr, ok := base.Ty.Underlying().(*types.Array); ok {
+					st2 := types.NewSlice(arr.Elem())
+					so := f.c.sorts.SortOf(st2)
+					return Val{T: fmt.Sprintf("(mk_%s %s 0 (- %d 0) (- %d 0))", so, f.arrTerm(base), arr.Len(), arr.Len()), Ty: st2}
+				}
+				if _, ok := base.Ty.Underlying().(*types.Slice); ok {
+					return base
+				}
+			}
+		}
 		sfail("slice expressions in specs are not supported: %s", x)
 	case *SCall:
 		return f.specCall(x, env)
